@@ -244,18 +244,25 @@ def op_table():
         used_array = False
         for n in s:
             r = rng.random()
-            if n == 0 or r < 0.25:
+            if n == 0 or r < 0.15:
                 idx.append(["s", None, None, None])
-            elif r < 0.55:
+            elif r < 0.35:
                 a = rng.randint(0, n - 1)
                 b = rng.randint(a, n)
                 idx.append(["s", a, b, None])
-            elif r < 0.7:
+            elif r < 0.45:
                 st = rng.choice([2, 3])
                 idx.append(["s", rng.choice([None, 0, 1]), None, st])
-            elif r < 0.8:
-                idx.append(["s", None, None, -1])
-            elif r < 0.9:
+            elif r < 0.65:
+                st = rng.choice([-1, -1, -2, -3])
+                if rng.random() < 0.5:
+                    idx.append(["s", None, None, st])
+                else:
+                    hi = rng.randint(0, n - 1)
+                    idx.append(["s", hi, rng.choice([None, rng.randint(0, hi) - 1 if hi > 0 else None]), st])
+                    if idx[-1][2] is not None and idx[-1][2] < 0:
+                        idx[-1][2] = None
+            elif r < 0.85:
                 idx.append(["i", rng.randint(-n, n - 1)])
             elif not used_array:
                 used_array = True
@@ -349,11 +356,48 @@ def op_table():
     T["pad"] = (1, pad_gen, lambda xp, c, a, kw: c.pad(a[0], kw["pad_width"], mode="constant"),
                 lambda a, kw: np.pad(a[0], kw["pad_width"], mode="constant"))
 
+    def gb_gen(rng, shapes):
+        s = shapes[0]
+        cands = [i for i, n in enumerate(s) if n >= 1]
+        if not cands:
+            return None
+        ax = rng.choice(cands)
+        n = s[ax]
+        G = rng.randint(1, min(n, 6))
+        # sorted labels 0..G-1, every group non-empty (searchsorted-based chunking needs sorted labels)
+        cuts = sorted(rng.sample(range(1, n), G - 1)) if G > 1 else []
+        by, g, prev = [], 0, 0
+        for cpos in cuts + [n]:
+            by += [g] * (cpos - prev)
+            prev, g = cpos, g + 1
+        return {"axis": ax, "by": by, "num_groups": G}
+
+    def gb_cf(xp, c, a, kw):
+        from cubed.core.groupby import groupby_blockwise
+
+        return groupby_blockwise(a[0], np.asarray(kw["by"]), func=_groupby_sum, axis=kw["axis"], dtype=a[0].dtype, num_groups=kw["num_groups"])
+
+    def gb_nf(a, kw):
+        x = np.moveaxis(a[0], kw["axis"], 0)
+        out = np.zeros((kw["num_groups"],) + x.shape[1:], dtype=a[0].dtype)
+        np.add.at(out, np.asarray(kw["by"], dtype=int), x)
+        return np.moveaxis(out, 0, kw["axis"])
+
+    T["groupby_blockwise_sum"] = (1, gb_gen, gb_cf, gb_nf)
+
     return T
 
 
 def _double(x):
     return x * 2
+
+
+def _groupby_sum(arr, by, axis, start_group, num_groups):
+    """block function of groupby_blockwise: sums of the groups start_group .. start_group+num_groups-1 of this block"""
+    x = np.moveaxis(np.asarray(arr), axis, 0)
+    out = np.zeros((num_groups,) + x.shape[1:], dtype=x.dtype)
+    np.add.at(out, np.asarray(by, dtype=int) - start_group, x)
+    return np.moveaxis(out, 0, axis)
 
 
 OPS = None
@@ -368,7 +412,7 @@ def ops():
 
 FAMILIES = {
     "elementwise": ["negative", "abs", "square", "add_scalar", "mul_scalar", "add", "subtract", "multiply", "maximum", "where_gt", "astype", "map_blocks_double"],
-    "reduction": ["r_sum", "r_prod", "r_max", "r_min", "r_mean", "argmax"],
+    "reduction": ["r_sum", "r_prod", "r_max", "r_min", "r_mean", "argmax", "groupby_blockwise_sum"],
     "scan": ["cumulative_sum"],
     "manipulation": ["concat", "stack", "unstack_pick", "repeat", "roll", "flip", "permute_dims", "expand_dims", "squeeze", "broadcast_to", "reshape", "pad", "tril"],
     "indexing": ["index"],
@@ -445,8 +489,10 @@ def gen_pattern_program(rng):
     """Structured programs that hit corners the uniform generator rarely reaches: a multi-output op feeding unary chains,
     diamonds with repeated arguments, a requested intermediate that is another requested array's only input."""
     T = ops()
-    kind = rng.choice(["multi_output_chain", "diamond", "requested_intermediate"])
+    kind = rng.choice(["multi_output_chain", "diamond", "requested_intermediate", "groupby_consumer"])
     n0, n1 = rng.randint(2, 4), rng.randint(2, 6)
+    if kind == "groupby_consumer":
+        n0 = rng.randint(3, 9)
     shape = (n0, n1)
     inp = {"var": "x0", "shape": list(shape), "chunks": list(gen_chunks(rng, shape)), "dtype": "float64", "seed": rng.randrange(10**6)}
     un = lambda: rng.choice(["negative", "abs", "square", "add_scalar", "mul_scalar"])
@@ -464,6 +510,27 @@ def gen_pattern_program(rng):
         if rng.random() < 0.4:
             w = add("unstack_pick", [a], {"axis": 0, "pick": rng.randrange(n0)})
             outs.append(add(un(), [w]))
+    elif kind == "groupby_consumer":
+        # groupby_blockwise whose group count is (often) not a multiple of the groups per output chunk, consumed by an
+        # elementwise op / a reduction over the group axis that the optimizer fuses with it
+        a = add(un(), ["x0"]) if rng.random() < 0.4 else "x0"
+        kw = T["groupby_blockwise_sum"][1](rng, [shape])
+        kw["axis"] = 0
+        G_ = rng.randint(2, min(n0, 6))
+        cuts = sorted(rng.sample(range(1, n0), G_ - 1))
+        by, g, prev = [], 0, 0
+        for cpos in cuts + [n0]:
+            by += [g] * (cpos - prev)
+            prev, g = cpos, g + 1
+        kw.update({"by": by, "num_groups": G_})
+        gvar = add("groupby_blockwise_sum", [a], kw)
+        r = rng.random()
+        if r < 0.4:
+            outs = [add("r_sum", [gvar], {"axis": 0, "keepdims": False, "split_every": 2})]
+        elif r < 0.7:
+            outs = [add(un(), [gvar])]
+        else:
+            outs = [gvar]
     elif kind == "diamond":
         a = add(un(), ["x0"])
         b = add(un(), [a])
